@@ -63,8 +63,10 @@ def value_candidates(lit):
     return out
 
 
-def build_grid(rows_spec, version='3.0'):
-    """rows_spec: list of dict tag -> model value | 'ABSENT' | 'NONE' | 'MARKER'; ids id0.."""
+def build_grid(rows_spec, version='3.0', churn=0):
+    """rows_spec: list of dict tag -> model value | 'ABSENT' | 'NONE' | 'MARKER'; ids id0..
+    churn: the grid has a history - a row that was appended and deleted again (1), a row that was replaced (2), a
+    look-up by id before the rows were complete (3) - none of which is visible in its rows"""
     import hszinc
     g = hszinc.Grid(version=version)
     g.metadata['gm'] = 'meta'
@@ -88,6 +90,15 @@ def build_grid(rows_spec, version='3.0'):
             else:
                 row[t] = model.from_model(v)
         g.append(row)
+        if churn == 3 and i == 0:
+            g.get('id0')
+    if churn == 1:
+        g.append({'id': 'gone', 'a': 1.0})
+        del g[len(g) - 1]
+    elif churn == 2 and len(g):
+        first = g[0]
+        g[0] = {'id': 'replaced'}
+        g[0] = first
     return g
 
 
@@ -131,7 +142,7 @@ def check(case, grid=None, excl=frozenset()):
     key = excluded(ast, text, case['rows'], excl)
     if key:
         return ('excluded', key)
-    g = grid if grid is not None else build_grid(case['rows'], case.get('version', '3.0'))
+    g = grid if grid is not None else build_grid(case['rows'], case.get('version', '3.0'), case.get('churn', 0))
     rows = list(g)
     limit = case.get('limit', 0)
     want = fr.select(ast, rows, limit)
@@ -257,13 +268,15 @@ def strategies(excl):
             c = cand.setdefault(t, [])
             c.extend([['ref', 'id%d' % i, None] for i in range(nrows)] * 2 + [['ref', 'nope', None], ['str', 'id0'], ['num', 0.0],
                       ['ref', '2', None], ['ref', '1001', None], ['ref', '0', None], ['uri', 'id1'],
+                      ['ref', 'id0', 'Site 0'], ['ref', 'id1', ''], ['ref', 'nope', 'gone'],
                                                                              'ABSENT', 'NONE', 'MARKER'])
         rows = []
         for _ in range(nrows):
             rows.append(dict((t, draw(st.sampled_from(c))) for t, c in sorted(cand.items())))
         return {'ast': a, 'choices': draw(st.lists(st.integers(0, 11), max_size=30)), 'rows': rows,
                 'limit': draw(st.sampled_from([0, 0, 0, 1, 2, nrows])),
-                'version': draw(st.sampled_from(['3.0', '3.0', '2.0', '2.5', '3.0.0', '1.0', '4.0', '2']))}
+                'version': draw(st.sampled_from(['3.0', '3.0', '2.0', '2.5', '3.0.0', '1.0', '4.0', '2'])),
+                'churn': draw(st.sampled_from([0, 0, 1, 2, 3]))}
     return cases()
 
 
